@@ -54,4 +54,4 @@ def run(ctx):
             continue
         case, info = g
         case["info"] = info
-        check_case(ctx, case)
+        ctx.guard(check_case, case)
